@@ -101,6 +101,9 @@ theorem C07_integerPower_witness :
     Spec.ExactArith.pow (-1) (-9223372036854775808) = .value 1 :=
   integerPower_corner
 
+/-- the oracle of the driver evaluates `^` with `powFast` (executable for huge exponents); it is `pow` -/
+theorem C07_powFast_eq (x y : Int) : Spec.ExactArith.powFast x y = Spec.ExactArith.pow x y := powFast_eq x y
+
 /-! ### bitwise operations and shifts -/
 
 /-- `/\`: every bit (of the unbounded two's complement representation, also beyond bit 63) of the
